@@ -5,7 +5,8 @@ set -e
 cd "$(dirname "$0")"
 export GOFLAGS=-mod=mod GOPROXY=off GOSUMDB=off GOTOOLCHAIN=local
 mkdir -p .work evidence
-if [ -x tla2coq/gen.sh ]; then timeout 1200 tla2coq/gen.sh; fi
+timeout 1200 tla2coq/gen.sh
+mkdir -p coq/theories/Sim/gen && python3 tools/simshape.py /repo/internal/simulation/main.go > coq/theories/Sim/gen/DriverShape.v
 (cd coq && coq_makefile -f _CoqProject -o Makefile > /dev/null && timeout 3000 make -j16 2>&1 | grep -v '^COQ\|^Closed under' | tail -20; test ${PIPESTATUS[0]} -eq 0)
 python3 - <<'PY'
 import sys
